@@ -13,10 +13,11 @@ from harness.q import Q, rs
 from harness.props import _expl
 
 
-def batch_case(chk, d, N, n_inner, mode, model_kind, loss_kind, imputer_kind):
+def batch_case(chk, d, N, n_inner, mode, model_kind, loss_kind, imputer_kind, positional=False):
     rng = chk.rng
     rig = explain.Rig(rng, kind="batch", d=d, names_kind=rng.choice(["str", "int", "mixed"]), n_inner=n_inner,
-                      storage_kind="batch", storage_size=1, imputer_kind=imputer_kind, model_kind=model_kind, loss_kind=loss_kind)
+                      storage_kind="batch", storage_size=1, imputer_kind=imputer_kind, model_kind=model_kind, loss_kind=loss_kind,
+                      positional=positional)
     data = [(rig.gen_x(), rig.gen_y()) for _ in range(N)]
     for x, y in data[:-1] if mode in ("one", "one-original") else data:
         rig.ex.update_storage(x, y)
@@ -40,7 +41,7 @@ def batch_case(chk, d, N, n_inner, mode, model_kind, loss_kind, imputer_kind):
     except Exception as ex:
         err = f"{core.err_kind(ex)}: {ex}"
         ret = None
-    desc = {"mode": mode, "d": d, "N": N, "n_inner": n_inner, "model": model_kind, "loss": loss_kind, "imputer": imputer_kind,
+    desc = {"mode": mode, "d": d, "N": N, "n_inner": n_inner, "model": model_kind, "loss": loss_kind, "imputer": imputer_kind, "positional_model": positional,
             "data": [([rs(v) for v in rig.xlist(x)], rs(y)) for x, y in data[:3]]}
     if err:
         return rig, desc, f"raised {err}", None
@@ -190,7 +191,8 @@ def run(tier="quick", seed=0, replay=None):
         mode = ["many", "original", "one", "one-original"][i % 4]
         d, N, n_inner = chk.rng.randint(1, 3), chk.rng.randint(1, 5), chk.rng.randint(1, 2)
         rig, desc, fail, tie = batch_case(chk, d, N, n_inner, mode, chk.rng.choice(["scalar", "multi", "grow"]),
-                                          chk.rng.choice(["arbitrary", "squared"]), chk.rng.choice(["joint", "product"]))
+                                          chk.rng.choice(["arbitrary", "squared"]), chk.rng.choice(["joint", "product"]),
+                                          positional=(i % 5 == 4 and d >= 2))
         chk.case(desc, nontrivial=N >= 2)
         chk.stat(f"batch:{mode}")
         if fail:
